@@ -135,16 +135,163 @@ def _gen_slip(rng):
         n = rng.choice([1, 2, 3, 5])
         t = 1 if n == 1 else rng.randrange(2, n + 1)
         groups.append((t, n))
-    return dict(secret=bytes(rng.getrandbits(8) for _ in range(rng.choice([16, 32]))), groups=groups, group_threshold=rng.randrange(1, ng + 1),
+    return dict(secret=bytes(rng.getrandbits(8) for _ in range(rng.choice([16, 18, 20, 24, 28, 32, 32, 48, 64]))), groups=groups, group_threshold=rng.randrange(1, ng + 1),
                 passphrase=rng.choice(["", "TREZOR", "abc"]), exponent=rng.choice([0, 1]), extendable=rng.random() < 0.5, pick_seed=rng.getrandbits(30))
 
 
 @contract("contracts.c_mnemonic.slip39_run", gen=_gen_slip, props="C13", n_quick=25, n_thorough=400,
-          rule="1..3 groups of 1..5 members, every threshold, iteration exponents 0/1, extendable flag; one qualifying subset in random order, a wrong passphrase, one member short")
+          rule="master secrets of 16..64 bytes (every padding width), 1..3 groups of 1..5 members, every threshold, iteration exponents 0/1, extendable flag; one qualifying subset in random order, a wrong passphrase, one member short")
 class Slip39Bounded:
     def post_threshold_recovery(secret, result):
         good, wrong, short = result
         return good == secret and wrong != secret and short in (None, "refused")
+
+
+# ---------------------------------------------------------------- Electrum, BIP85
+_ELECTRUM_PREFIX = {"standard": "01", "segwit": "100", "2fa": "101", "2fa_segwit": "102"}
+# the ranges of Electrum's CJK_INTERVALS that the twelve word-lists reach after NFKD
+_CJK = ((0x4E00, 0x9FFF), (0x3400, 0x4DBF), (0x3040, 0x309F), (0x30A0, 0x30FF), (0xAC00, 0xD7AF), (0x1100, 0x11FF), (0x3130, 0x318F), (0xFF00, 0xFFEF), (0xF900, 0xFAFF))
+
+
+def _electrum_normalize(text):
+    """Electrum's normalize_text (mnemonic.py): NFKD, lower, no combining marks, whitespace
+    collapsed, whitespace between two CJK characters removed"""
+    import string
+    text = unicodedata.normalize("NFKD", text).lower()
+    text = "".join(c for c in text if not unicodedata.combining(c))
+    text = " ".join(text.split())
+    cjk = lambda c: any(a <= ord(c) <= b for a, b in _CJK)
+    return "".join(text[i] for i in range(len(text)) if not (text[i] in string.whitespace and cjk(text[i - 1]) and cjk(text[i + 1])))
+
+
+def _electrum_version_prefix(mnemonic):
+    import hmac
+    return hmac.new(b"Seed version", _electrum_normalize(mnemonic).encode(), hashlib.sha512).hexdigest()
+
+
+def electrum_run(mnemonic_type, entropy, lang):
+    from btclib.mnemonic import electrum
+    try:
+        m = electrum.mnemonic_from_entropy(mnemonic_type, entropy, lang)
+    except BTClibValueError:
+        return None
+    version, _ = electrum.version_from_mnemonic(m)
+    back = int(electrum.entropy_from_mnemonic(m, lang), 2)
+    again = electrum.mnemonic_from_entropy(mnemonic_type, back - 1, lang)
+    # one word replaced: accepted exactly when the hash of the sentence still starts with a version
+    words = m.split()
+    alt = list(words)
+    alt[entropy % len(alt)] = words[(entropy // 7) % len(words)]
+    tampered = " ".join(alt)
+    try:
+        tv = electrum.version_from_mnemonic(tampered)[0]
+    except BTClibValueError:
+        tv = None
+    return m, version, back, again, tampered, tv
+
+
+def _gen_electrum(rng):
+    lang = rng.choice(["en", "en", "es", "ja", "zh", "zh_tw", "ko", "it", "fr", "pt", "cs"])
+    t = rng.choice(["standard", "segwit", "2fa", "2fa_segwit"])
+    bits = rng.choice([121, 125, 132, 132, 132, 140, 220, 264])       # 11..24 words of a 2048-word list
+    return dict(mnemonic_type=t, entropy=rng.randrange(2 ** (bits - 1), 2 ** bits), lang=lang)
+
+
+@contract("contracts.c_mnemonic.electrum_run", gen=_gen_electrum, props="C13", n_quick=60, n_thorough=1500,
+          rule="four seed versions x eleven languages (CJK included) x entropies worth 11..24 words; one-word substitution")
+class ElectrumBounded:
+    """the sentence written for a version is read back as that version, its HMAC('Seed version')
+    starts with the version's prefix, it decodes (least significant word first) to the entropy
+    it was searched from, and a substituted sentence is accepted exactly when its own hash
+    starts with a version prefix (2fa: 12 or >= 20 words)"""
+
+    def post_versioned_roundtrip(mnemonic_type, entropy, lang, result):
+        if result is None:
+            # refused: only '2fa' can be, when the entropy is not worth 12 or >= 20 words
+            return mnemonic_type == "2fa"
+        m, version, back, again, tampered, tv = result
+        h = _electrum_version_prefix(m)
+        ok = version == mnemonic_type and h.startswith(_ELECTRUM_PREFIX[mnemonic_type]) and back > entropy and again == m
+        try:
+            words = _words(lang) if lang != "pt" else None
+        except LookupError:
+            words = None
+        if words is not None:
+            nm = [unicodedata.normalize("NFKD", w) for w in words]
+            idx = [nm.index(w) for w in unicodedata.normalize("NFKD", m).split()]
+            ok = ok and sum(k * len(words) ** i for i, k in enumerate(idx)) == back
+        th = _electrum_version_prefix(tampered)
+        n = len(tampered.split())
+        want = None
+        for name, pre in _ELECTRUM_PREFIX.items():
+            if th.startswith(pre) and not (name == "2fa" and n != 12 and n < 20):
+                want = name
+                break
+        return ok and (tv == want or tv == "old")
+
+
+def _gen_bip85(rng):
+    from spec import bip32_ref as R
+    seed = bytes(rng.getrandbits(8) for _ in range(32))
+    root = R.master(seed, bytes.fromhex("0488ade4"))
+    if root is None:
+        raise ValueError("no master key")
+    app = rng.choice([[128169, rng.choice([16, 32, 64])], [39, 0, rng.choice([12, 18, 24])], [2], [32]])
+    index = rng.randrange(0, 2 ** 31)
+    if rng.random() < 0.4:
+        # steer to a derived key with leading zero bytes (one path in 256)
+        for index in range(index, index + 3000):
+            k = R.derive(root, [R.HARD + 83696968] + [R.HARD + a for a in app] + [R.HARD + (index % 2 ** 31)])
+            if not isinstance(k, str) and k["key"][1] == 0:
+                break
+    index %= 2 ** 31
+    return dict(seed=seed, app=app, index=index)
+
+
+def bip85_run(seed, app, index):
+    from btclib import bip85
+    from btclib.bip32 import rootxprv_from_seed
+    root = rootxprv_from_seed(seed)
+    path = "m/83696968h/" + "/".join(f"{a}h" for a in app) + f"/{index}h"
+    out = [bip85.entropy_from_der_path(root, path)]
+    if app[0] == 128169:
+        out.append(bip85.bytes_entropy_from_root_key(root, app[1], index))
+    elif app[0] == 39:
+        out.append(bip85.mnemonic_from_root_key(root, app[2], "en", index))
+    elif app[0] == 2:
+        out.append(bip85.wif_from_root_key(root, index))
+    else:
+        out.append(bip85.xprv_from_root_key(root, index))
+    return out
+
+
+@contract("contracts.c_mnemonic.bip85_run", gen=_gen_bip85, props="C13", n_quick=80, n_thorough=2000,
+          rule="random 32-byte seeds x applications HEX / BIP39 / WIF / XPRV x indexes, 40% steered to derived keys with a leading zero byte")
+class Bip85Bounded:
+    """BIP85: entropy = HMAC-SHA512('bip-entropy-from-k', the 32 bytes of the derived private key),
+    the key derived by an independent BIP32; applications cut it as the BIP says"""
+
+    def post_is_hmac_of_derived_key(seed, app, index, result):
+        import hmac
+        from spec import bip32_ref as R
+        from spec.base58_ref import check_encode as b58check_encode
+        root = R.master(seed, bytes.fromhex("0488ade4"))
+        k = R.derive(root, [R.HARD + 83696968] + [R.HARD + a for a in app] + [R.HARD + index])
+        ent = hmac.new(b"bip-entropy-from-k", k["key"][1:], "sha512").digest()
+        ok = result[0] == ent
+        if app[0] == 128169:
+            ok = ok and result[1] == ent[:app[1]]
+        elif app[0] == 39:
+            n = {12: 16, 18: 24, 24: 32}[app[2]]
+            idx = ref_bip39_indexes(ent[:n])
+            words = _words("en")
+            ok = ok and result[1].split() == [words[i] for i in idx]
+        elif app[0] == 2:
+            ok = ok and result[1] == b58check_encode(b"\x80" + ent[:32] + b"\x01")
+        else:
+            xk = dict(version=bytes.fromhex("0488ade4"), depth=0, fingerprint=bytes(4), index=0, chain=ent[:32], key=b"\x00" + ent[32:])
+            ok = ok and result[1] == b58check_encode(R.serialize(xk))
+        return ok
 
 
 # ---------------------------------------------------------------- deductive kernels
